@@ -22,6 +22,7 @@ from .base import (
     BaseGarbageCollector,
     NostrQuery,
     event_from_json,
+    is_hex,
 )
 
 
@@ -315,6 +316,9 @@ class DBStorage(BaseStorage):
                 for tag in event.tags:
                     name = tag[0]
                     if name == "e":
+                        if len(tag) < 2 or not is_hex(tag[1], 64):
+                            # does not refer to an event
+                            continue
                         event_id = tag[1]
                         query = sa.delete(self.EventTable).where(
                             (self.EventTable.c.pubkey == bytes.fromhex(event.pubkey))
